@@ -482,6 +482,45 @@ def _work_lossy(acc, h):
     cap.w.close()
 
 
+def _work_sync(acc, victims):
+    """Consumer-side removal of context states the provider no longer has (ConsumerMdib.xtra.sync_context_states - the
+    library's means to follow context states that were deleted without a report): whatever it removes must be gone from every
+    index. (On the unchanged tree the method raises "Set changed size during iteration" after its first removal; that is
+    tolerated here, only the tables are judged.)"""
+    from mcx import alphabet as A
+    walk = mdibwalk.Walk()
+    for name in ('patient-new(A)', 'patient-new(B)', 'patient-entity-new(C)', 'location(1)', 'location(2)'):
+        walk.step(name)
+    p, m = walk.provider, walk.cmdib
+    acc.trace()
+    acc.evals()
+    acc.transition(7)
+    ent = p.mdib.entities.by_handle(A.PAT if victims != 'locations' else A.LOC)
+    handles = sorted(ent.states)
+    gone = {'first': handles[:1], 'first-two': handles[:2], 'all': handles, 'locations': handles[:1]}[victims]
+    for h in gone:
+        ent.states.pop(h)
+    with p.mdib.context_state_transaction() as tr:
+        tr.write_entity(ent, gone)
+    raised = None
+    try:
+        m.xtra.sync_context_states()
+    except RuntimeError as ex:
+        raised = repr(ex)[:80]
+    acc.outcome(f'sync-context-states:{victims}:raised={raised is not None}')
+    acc.state(h64(('sync', victims)))
+    scan = canon.mdib_scan(m)
+    still = sorted(h for h in gone if m.context_states.handle.get_one(h, allow_none=True) is not None
+                   and not any(o.Handle == h for o in m.context_states.objects))
+    if scan or still:
+        acc.violation(f'consumer-sync-context-states/index-differs-from-scan/{victims}',
+                      {'removed_at_provider': gone, 'scan': scan[:3], 'handles_still_found_by_lookup': still, 'sync_raised': raised},
+                      case={'kind': 'sync', 'victims': victims})
+    else:
+        acc.nontrivial(h64(('sync', victims)))
+    walk.world.close()
+
+
 def run(ctx):
     ctx.rule = ('(a) BFS over op histories on 5 real tables (DescriptorsLookup, StatesLookup, MultiStatesLookup, a generic '
                 '3-index table, the subscription-table declaration) with 2-3 stub objects whose attribute domains collide; ops: '
@@ -502,6 +541,7 @@ def run(ctx):
     ctx.pmap(_work_mdib, ctx.rotate(hjobs))
     ctx.pmap(_work_lossy, ctx.rotate(LOSSY_HISTORIES[:4] if ctx.quick else LOSSY_HISTORIES), chunksize=1)
     ctx.note('lossy_histories', 4 if ctx.quick else len(LOSSY_HISTORIES))
+    ctx.pmap(_work_sync, ['first', 'first-two', 'all', 'locations'], chunksize=1)
     from mcx.checks import c11_sched
     c11_sched.run(ctx)
     ctx.assumptions.append('an attribute write on a stored object is always followed by update_object (the documented usage); '
@@ -522,6 +562,9 @@ def replay(ctx, case):
                 ctx.violation(f'table/{case["table"]}/{_fmt(case["history"])}', problems[:3])
                 break
         return out
+    if case['kind'] == 'sync':
+        _work_sync(ctx, case['victims'])
+        return {'violations': sorted(ctx.violations)[:5]}
     if case['kind'] == 'table-race':
         from mcx.checks import c11_sched
         return c11_sched.replay(ctx, case)
